@@ -67,6 +67,20 @@ func (g *G) boolLit() X {
 	return X{[]Tok{{sp, true}}, lit(sp, "bool"), PPrimary}
 }
 
+// literal draws a constant (DEFAULT values).
+func (g *G) literal() X {
+	switch g.intn(4, "literal") {
+	case 0:
+		return g.number()
+	case 1:
+		return g.str()
+	case 2:
+		return g.boolLit()
+	default:
+		return g.null()
+	}
+}
+
 func (g *G) null() X { return X{g.kw("NULL"), lit(nil, "null"), PPrimary} }
 
 func (g *G) placeholder() X {
